@@ -410,12 +410,14 @@ pub enum Tag {
 }
 
 impl Tag {
+    /// Add character data following this tag; several pieces (text and CDATA
+    /// sections can alternate) accumulate.
     fn set_text(&mut self, text: String) {
         match self {
-            Tag::Compound(_, tail) => *tail = Some(text),
-            Tag::Leaf(_, tail) => *tail = Some(text),
-            Tag::Comment(_, tail) => *tail = Some(text),
-            _ => {}
+            Tag::Compound(_, tail) | Tag::Leaf(_, tail) | Tag::Comment(_, tail) => {
+                tail.get_or_insert_with(String::new).push_str(&text)
+            }
+            Tag::Text(t) | Tag::CData(t) => t.push_str(&text),
         }
     }
 
